@@ -228,6 +228,24 @@ impl ChalProof for crate::uni::Bb4 {
     }
 }
 
+macro_rules! no_npo_universe {
+    ($u:ty) => {
+        impl ChalProof for $u {
+            fn chal_proof(_h: &History, _seed: u64) -> Result<(Self::Proof, ProverCfg), String> {
+                Err("no non-primitive tables in this universe".into())
+            }
+            fn chal_params() -> (u64, usize, usize) {
+                (<<$u as CircuitUni>::BF as p3_field::PrimeField64>::ORDER_U64, <$u as CircuitUni>::D, 8)
+            }
+        }
+    };
+}
+no_npo_universe!(crate::uni::Bb5);
+no_npo_universe!(crate::uni::Kb5q);
+no_npo_universe!(crate::uni::Kb8);
+no_npo_universe!(crate::uni::Kb1);
+no_npo_universe!(crate::uni::Gl2);
+
 fn population<U: ChalProof>(ctx_seed: u64, idx: u64, tier: Tier, out: &mut RunOut) -> (Vec<Member<U>>, Program) {
     let mut rng = Rng::new(ctx_seed, "C16", idx);
     let mut pop = Vec::new();
@@ -264,9 +282,18 @@ fn population<U: ChalProof>(ctx_seed: u64, idx: u64, tier: Tier, out: &mut RunOu
             }
         }
     }
+    // proof of a circuit without any extension multiplication: its trace satisfies the ALU
+    // constraints for every reduction polynomial, so only the metadata checks stand between an
+    // altered `w_binomial` / `alu_quintic_trinomial` and acceptance
+    let lp = crate::gprog::generate_linear::<U::BF, U::EF>(&mut rng, 8);
+    if let Ok(h) = c04::honest::<U>(&lp, &cfg, hs) {
+        if let Ok(proof) = pipe::prove::<U>(&h.keys, &h.traces, &cfg, None) {
+            pop.push(Member { label: "honest_linear", proof_tree: serde_json::to_value(&proof).unwrap(), valid: true, cfg: cfg.clone(), _p: Default::default() });
+        }
+    }
     // proof with non-primitive tables
     let (order, d, rate) = U::chal_params();
-    let h = chal::gen_history(&mut rng, order, d, rate, 10, false);
+    let h = chal::gen_history(&mut rng, order, d.max(1), rate, 10, false);
     if let Ok(Ok((proof, ccfg))) = observe(|| U::chal_proof(&h, hs)) {
         pop.push(Member { label: "honest_with_npo_tables", proof_tree: serde_json::to_value(&proof).unwrap(), valid: true, cfg: ccfg, _p: Default::default() });
     }
@@ -406,10 +433,14 @@ pub fn main(ctx: &Ctx) -> i32 {
         c2.tier = if body["tier"].as_str() == Some("thorough") { Tier::Thorough } else { Tier::Quick };
         let mut out = RunOut::default();
         let only = if fs.is_empty() { None } else { Some((label.as_str(), fs)) };
-        if d["universe"].as_str() == Some("U-BB4") {
-            one_run::<crate::uni::Bb4>(&c2, idx, only, &mut out);
-        } else {
-            one_run::<crate::uni::Kb4>(&c2, idx, only, &mut out);
+        match d["universe"].as_str().unwrap_or("") {
+            "U-BB4" => one_run::<crate::uni::Bb4>(&c2, idx, only, &mut out),
+            "U-BB5" => one_run::<crate::uni::Bb5>(&c2, idx, only, &mut out),
+            "U-KB5Q" => one_run::<crate::uni::Kb5q>(&c2, idx, only, &mut out),
+            "U-KB8" => one_run::<crate::uni::Kb8>(&c2, idx, only, &mut out),
+            "U-KB1" => one_run::<crate::uni::Kb1>(&c2, idx, only, &mut out),
+            "U-GL2" => one_run::<crate::uni::Gl2>(&c2, idx, only, &mut out),
+            _ => one_run::<crate::uni::Kb4>(&c2, idx, only, &mut out),
         }
         let key = body["key"].as_str().unwrap_or("");
         if out.violations.iter().any(|v| v.key == key) {
@@ -422,10 +453,14 @@ pub fn main(ctx: &Ctx) -> i32 {
     let runs: u64 = ctx.tier.pick(48, 480);
     let res = crate::core::pool::run_jobs(runs, |idx| {
         let mut out = RunOut::default();
-        if idx % 2 == 0 {
-            one_run::<crate::uni::Kb4>(ctx, idx, None, &mut out);
-        } else {
-            one_run::<crate::uni::Bb4>(ctx, idx, None, &mut out);
+        match idx % 12 {
+            0 | 2 | 4 | 10 => one_run::<crate::uni::Kb4>(ctx, idx, None, &mut out),
+            1 | 3 | 11 => one_run::<crate::uni::Bb4>(ctx, idx, None, &mut out),
+            5 => one_run::<crate::uni::Bb5>(ctx, idx, None, &mut out),
+            6 => one_run::<crate::uni::Kb5q>(ctx, idx, None, &mut out),
+            7 => one_run::<crate::uni::Kb8>(ctx, idx, None, &mut out),
+            8 => one_run::<crate::uni::Kb1>(ctx, idx, None, &mut out),
+            _ => one_run::<crate::uni::Gl2>(ctx, idx, None, &mut out),
         }
         let mut d = crate::core::prng::Digest::new();
         d.u64(out.evals);
@@ -453,12 +488,12 @@ pub fn main(ctx: &Ctx) -> i32 {
         runs,
         Spec {
             level: "fault_enumeration",
-            rule: "one run = a population of three circuit proofs (honest primitive-only proof under a packing swarm; an invalid-trace proof produced by the byzantine prover and rejected by the verifier; an honest proof with Poseidon2 and recompose tables) in U-KB4 / U-BB4. Every metadata leaf outside `proof` (ext_degree, w_binomial, alu_quintic_trinomial, every TablePacking field, rows, alu_variant, every NonPrimitiveTableEntry field, stark_common commitment words / instance metadata / matrix_to_instance) is set to every value of a small well-formed set, option flipped, strings replaced, lists swapped / shortened / duplicated; plus sampled pairs; plus postcard and JSON round trips of every member. distinct = distinct (universe, member, field class, fault) combinations.",
+            rule: "one run = a population of three circuit proofs (honest primitive-only proof under a packing swarm; an invalid-trace proof produced by the byzantine prover and rejected by the verifier; an honest proof of an add/sub/connect-only circuit, whose trace satisfies the ALU constraints under every reduction polynomial; an honest proof with Poseidon2 and recompose tables, D4 universes only) in U-KB4 / U-BB4 (7 of 12 runs) and BabyBear binomial D5, KoalaBear quintic D5, KoalaBear D8, KoalaBear D1, Goldilocks D2. Every metadata leaf outside `proof` (ext_degree, w_binomial, alu_quintic_trinomial, every TablePacking field, rows, alu_variant, every NonPrimitiveTableEntry field, stark_common commitment words / instance metadata / matrix_to_instance) is set to every value of a small well-formed set, option flipped, strings replaced, lists swapped / shortened / duplicated; plus sampled pairs; plus postcard and JSON round trips of every member. distinct = distinct (universe, member, field class, fault) combinations.",
             exhaustive: true,
             assumptions: vec!["exhaustive over single metadata faults from the stated value set for each sampled proof; pairs sampled".into(), "verifier = verify_all_tables::<EF> with the verifier's own registered tables (no commitment binding here: the property is about native verification)".into()],
             components_real: vec!["BatchStarkProof serde impls (serde_json, postcard)", "BatchStarkProof::validate", "verify_all_tables", "prove_all_tables"],
             components_stub: vec![],
-            not_covered: vec!["re-proving under an altered EF (adversarial variant of DESIGN §5 C16)", "VerifierManifest::matches", "quintic / D=1 / D=2 proofs", "in-circuit verdict after round trip"],
+            not_covered: vec!["re-proving under an altered EF (adversarial variant of DESIGN §5 C16)", "VerifierManifest::matches", "in-circuit verdict after round trip"],
             extra: json!({}),
         },
     )
